@@ -64,6 +64,20 @@ def install(ip, log):
         while isinstance(inp, Ref) and d_ > 0:
             inp = ip_.read_loc(st, inp.root, inp.path)
             d_ -= 1
+        if isinstance(parser, Agg) and parser.fields and all(isinstance(x, Opaque) and x.tag == "fn" for x in parser.fields) and isinstance(inp, Opaque) and inp.tag == "cur":
+            # a tuple of integer parsers applied in sequence: (be_u32, be_u32, ...).parse(input)
+            cur_ = inp
+            vals = []
+            for x in parser.fields:
+                r = int_parse(x.data or "", cur_)
+                if r is None:
+                    return None
+                rest, v, endian, n = r
+                log.append((cur_.data, n, endian))
+                st.add_eff(("parse-int", cur_.data, n, endian))
+                vals.append(v)
+                cur_ = rest
+            return Enum(models.OK, [Agg([cur_, Agg(vals)])])
         if not isinstance(parser, Opaque) or not (isinstance(inp, Opaque) and inp.tag == "cur"):
             return None
         if parser.tag == "nom-tag" and parser.data is not None:
@@ -79,6 +93,18 @@ def install(ip, log):
         if parser.tag == "nom-map":
             f, g = parser.data
             r = int_parse(f or "", inp)
+            if r is not None and isinstance(g, Opaque) and g.tag == "fn":
+                # map(parser, function item): a function of the crate (e.g. an `impl From<u32>`), resolved through its instantiation
+                cands = [g.data, ip_.fn_full.get(g.data)]
+                key = next((c for c in cands if c in ip_.f.bodies), None)
+                if key is None:
+                    return None
+                rest, v, endian, n = r
+                st.add_eff(("parse-int", inp.data, n, endian))
+
+                def transform_fn(st2, ret, rest=rest):
+                    return Enum(models.OK, [Agg([rest, ret])])
+                return ("tailcall", key, [v], transform_fn)
             if r is None or not isinstance(g, Agg) or g.tag not in ip_.f.bodies:
                 return None
             rest, v, endian, n = r
